@@ -141,7 +141,7 @@ def compile_unit(path, config="default", extra=(), repo=None, mem2reg=True, inli
                          if f.internal and f.name not in inline_except and (rel not in KEEP_LOOP_HELPERS or not f.loops_headers()))
         if not victims:
             return base_js
-        tag = hashlib.sha1((path + "|" + config + "|" + " ".join(extra) + "|inl|" + ",".join(victims)).encode()).hexdigest()[:12]
+        tag = hashlib.sha1((path + "|" + config + "|" + " ".join(extra) + "|inl+jt|" + ",".join(victims)).encode()).hexdigest()[:12]
         stem = os.path.join(wd, os.path.basename(path).replace(".", "_") + "_" + config + "_" + tag)
         js = stem + ".json"
         if os.path.exists(js):
@@ -150,7 +150,7 @@ def compile_unit(path, config="default", extra=(), repo=None, mem2reg=True, inli
         text = _mark_always_inline(open(ll).read(), set(victims))
         with open(stem + ".in.ll", "w") as f:
             f.write(text)
-        r = subprocess.run(["opt-14", "-passes=always-inline,function(mem2reg)", "-S", stem + ".in.ll", "-o", stem + ".inl.ll"],
+        r = subprocess.run(["opt-14", "-passes=always-inline,function(mem2reg,jump-threading)", "-S", stem + ".in.ll", "-o", stem + ".inl.ll"],
                            capture_output=True, text=True)
         if r.returncode != 0:
             raise ir.AnalysisError("opt (always-inline) failed on %s: %s" % (path, r.stderr[-2000:]))
